@@ -55,6 +55,221 @@ static void run_kd3(const Case& c) {
   run_history<3>(c);
 }
 
+// ---------------------------------------------------------------- mode 2 / 3: query-interleaved histories, other coordinate types
+
+template <size_t D>
+static void run_query_history(const Case& c) {
+  if (c.u(1) != D) throw std::logic_error("C13: dimension does not match the subcheck");
+  int64_t side = c.i(2);
+  if (side < 1 || side > 97) throw std::logic_error("C13: coordinate range outside the domain");
+  uint64_t ptype = c.u(4);
+  coord_map().a = c.u(5);
+  coord_map().b = c.i(6);
+  if (coord_map().b < -1000 || coord_map().b > 1000) throw std::logic_error("C13: coordinate shift outside the domain");
+  Policy q;
+  q.first = c.u(7) & 3;
+  q.rest = (c.u(7) >> 2) & 3;
+  Stats st;
+  const uint64_t* ops = c.n.data() + 8;
+  size_t len = c.n.size() - 8;
+  try {
+    if (ptype == 0) KD<D>::replay(ops, len, side, c.u(3), st, &q);
+    else if (ptype == 1) KD<D, PointOfDouble<D>>::replay(ops, len, side, c.u(3), st, &q);
+    else if (ptype == 2 && D == 2) KD<2, PointOfU64>::replay(ops, len, side, c.u(3), st, &q);
+    else throw std::logic_error("C13: unknown coordinate type");
+  } catch (const Fail& f) {
+    // the element type goes into the signature: a failure that needs non-integer / unsigned coordinates is another class
+    if (ptype == 1) throw Fail{f.sig + ":double", cat(f.msg, " [", DoubleMap::describe(), "]")};
+    if (ptype == 2) throw Fail{f.sig + ":uint64", cat(f.msg, " [", PointOfU64::describe(), "]")};
+    throw;
+  }
+  if (st.nontrivial) ctx().nontrivial_case();
+  ctx().cls(cat("kdq", D, ":", ptype == 0 ? "int64" : ptype == 1 ? "double" : "uint64"));
+  ctx().cls(cat("kdq", D, ":range=", side <= 4 ? "<=4" : side <= 12 ? "5-12" : "13-97"));
+  ctx().cls(cat("kdq", D, ":ops<=", len <= 8 ? "8" : len <= 30 ? "30" : len <= 100 ? "100" : "400"));
+  ctx().cls(cat("kdq", D, ":first=", q.first, ":rest=", q.rest));
+}
+
+static void run_kdq2(const Case& c) {
+  if (c.u(0) == 2) {
+    run_query_history<2>(c);
+  } else if (c.u(0) == 3) {
+    size_t k = c.u(1);
+    if (k > 8 || c.n.size() != 3 + k || c.u(2) > 24) throw std::logic_error("C13: malformed probe-block case");
+    std::vector<uint64_t> cells(c.n.begin() + 3, c.n.end());
+    for (uint64_t x : cells)
+      if (x > 8) throw std::logic_error("C13: cell outside the 3x3 grid");
+    Stats st;
+    uint64_t cnt = run_probe_block(cells, c.u(2), st);
+    ctx().count(cnt - 1);
+    if (st.nontrivial) ctx().nontrivial_case();
+  } else {
+    throw std::logic_error("C13: unknown case mode");
+  }
+}
+static void run_kdq3(const Case& c) {
+  if (c.u(0) != 2) throw std::logic_error("C13: kdq3 has query histories only");
+  run_query_history<3>(c);
+}
+
+// Insertions that realise a chosen tree SHAPE (the tree is never rebalanced, so the shape is a function of the
+// insertion order): a spine of `levels` nodes that turns to the before / after side by a pattern, and at every level,
+// with a chosen probability, a small subtree on the other side. Built by keeping the box of coordinates that reach
+// the current position: a point goes `before` iff its coordinate along the node's axis is smaller.
+template <size_t D>
+static void gen_shaped_inserts(Case& c, int64_t side) {
+  std::array<int64_t, D> lo, hi;
+  lo.fill(0);
+  hi.fill(side);
+  size_t levels = vg::coin() ? 1 + vg::scaled(110) : 36 + vg::below(80);
+  unsigned pattern = vg::below(6); // 0 always after, 1 always before, 2 alternating by level, 3 random, 4 by axis, 5 runs
+  unsigned sib_of_4 = vg::pick<unsigned>({0, 1, 2, 4, 4, 4}); // chance (in quarters) of a subtree on the other side
+  bool defer = vg::coin(); // the side subtrees are inserted after the whole spine instead of right after their parent
+  std::vector<uint64_t> deferred;
+  auto code = [&]() { return (kGated && vg::coin()) ? EMPLACE : INSERT; };
+  auto emit = [&](const std::array<int64_t, D>& q, bool side_subtree) {
+    uint64_t w = pack_pt(code(), q[0], q[1], D == 3 ? q[2] : -1, vg::below(3));
+    if (side_subtree && defer) deferred.push_back(w);
+    else c.N(w);
+  };
+  auto in_box = [&](const std::array<int64_t, D>& l, const std::array<int64_t, D>& h) {
+    std::array<int64_t, D> q;
+    for (size_t e = 0; e < D; e++) {
+      int64_t w = h[e] - l[e];
+      switch (vg::below(3)) {
+        case 0: q[e] = l[e]; break;
+        case 1: q[e] = h[e] - 1; break;
+        default: q[e] = l[e] + static_cast<int64_t>(vg::below(w)); break;
+      }
+    }
+    return q;
+  };
+  size_t d = 0;
+  bool run_dir = vg::coin();
+  for (size_t lv = 0; lv < levels; lv++, d = (d + 1) % D) {
+    bool want_before;
+    switch (pattern) {
+      case 0: want_before = false; break;
+      case 1: want_before = true; break;
+      case 2: want_before = (lv & 1) != 0; break;
+      case 3: want_before = vg::coin(); break;
+      case 4: want_before = (d == 0); break;
+      default:
+        if (vg::chance(1, 8)) run_dir = !run_dir;
+        want_before = run_dir;
+        break;
+    }
+    bool sib = vg::below(4) < sib_of_4;
+    int64_t width = hi[d] - lo[d]; // >= 1
+    std::array<int64_t, D> q = in_box(lo, hi);
+    std::array<int64_t, D> slo = lo, shi = hi; // box of the other side
+    if (want_before && width >= 2) {
+      q[d] = hi[d] - 1 - ((width >= 3 && vg::chance(1, 4)) ? 1 : 0); // the spine goes on in [lo, q)
+      slo[d] = q[d];
+      emit(q, false);
+      hi[d] = q[d];
+    } else {
+      // the spine goes on in [q, hi): always possible (ties go to after_or_equal)
+      if (sib && width >= 2) q[d] = lo[d] + 1 + ((width >= 3 && vg::chance(1, 4)) ? 1 : 0);
+      else q[d] = lo[d] + ((width >= 2 && vg::chance(1, 4)) ? 1 : 0);
+      shi[d] = q[d];
+      if (shi[d] <= slo[d]) sib = false; // nothing is smaller along this axis
+      emit(q, false);
+      lo[d] = q[d];
+    }
+    if (sib) {
+      size_t cnt = 1 + vg::below(2);
+      for (size_t j = 0; j < cnt; j++) emit(in_box(slo, shi), true);
+    }
+  }
+  for (uint64_t w : deferred) c.N(w);
+}
+
+template <size_t D>
+static Case gen_query_history() {
+  Case c(D == 2 ? "kdq2" C13_SUFFIX : "kdq3" C13_SUFFIX);
+  bool shaped = vg::chance(1, 4);
+  int64_t side;
+  if (shaped) side = vg::pick<int64_t>({12, 40, 97, 97});
+  else side = (D == 2) ? vg::pick<int64_t>({2, 3, 3, 4, 4, 5, 6, 8, 12, 30, 97}) : vg::pick<int64_t>({2, 2, 3, 3, 4, 6, 30});
+  uint64_t ptype = (D == 2) ? vg::pick<uint64_t>({0, 0, 1, 1, 1, 2}) : vg::pick<uint64_t>({0, 1, 1});
+  uint64_t map_a = vg::below(8);
+  int64_t map_b = vg::pick<int64_t>({0, side / 2, side, static_cast<int64_t>(vg::below(side + 2))});
+  c.N(2).N(D).I(side).N(vg::below(1000000)).N(ptype).N(map_a).I(map_b);
+  uint64_t maxlen = ctx().thorough() ? 300 : 60;
+  if (vg::chance(1, 3)) maxlen = std::min<uint64_t>(maxlen, 12);
+  uint64_t len = shaped ? vg::scaled(24) : vg::scaled(maxlen);
+  // the battery after every mutation only on short histories (cost); the end-of-history battery always runs
+  unsigned rest = (shaped || len > 30) ? vg::pick<unsigned>({0, 0, 1, 3}) : vg::pick<unsigned>({0, 0, 1, 2, 3});
+  unsigned first = vg::pick<unsigned>({0, 1, 1, 1, 2, 3});
+  c.N(first | (rest << 2));
+  if (shaped) gen_shaped_inserts<D>(c, side);
+
+  auto coord = [&]() { return static_cast<int64_t>(vg::below(side)); };
+  // a few focus points: inserted, erased and looked up again and again, so that a lookup before a mutation and the same
+  // lookup after it meet the same entry
+  std::array<std::array<int64_t, 3>, 3> focus;
+  for (auto& f : focus) f = {coord(), coord(), D == 3 ? coord() : -1};
+  auto focus_or_any = [&](unsigned of8) -> std::array<int64_t, 3> {
+    if (vg::below(8) < of8) return focus[vg::below(3)];
+    return {coord(), coord(), D == 3 ? coord() : -1};
+  };
+  for (uint64_t i = 0; i < len; i++) {
+    unsigned r = vg::below(100);
+    uint64_t value = vg::below(3);
+    if (r < 28) {
+      unsigned code = (kGated && vg::coin()) ? EMPLACE : INSERT;
+      auto p = focus_or_any(2);
+      c.N(pack_pt(code, p[0], p[1], p[2], value));
+    } else if (r < 34) {
+      c.N(pack_raw(INSERT_DUP, value + 10 * vg::below(1000)));
+    } else if (r < 46) {
+      c.N(pack_raw(ERASE_LIVE, vg::below(1000)));
+    } else if (r < 52) {
+      auto p = focus_or_any(4);
+      if (vg::chance(1, 4)) p[vg::below(D)] = vg::coin() ? -1 : side; // just outside
+      c.N(pack_pt(ERASE, p[0], p[1], p[2], value));
+    } else if (r < 64) {
+      c.N(pack_raw(SWEEP, vg::pick<uint64_t>({1, 2, 4, 4, 6, 8}) + 10 * vg::below(100000)));
+    } else if (r < 76) {
+      auto p = focus_or_any(6);
+      c.N(pack_pt(PROBE, p[0], p[1], p[2], 0));
+    } else if (r < 90) {
+      c.N(pack_raw(PROBE_LIVE, vg::below(1000)));
+    } else if (r < 97) {
+      c.N(pack_raw(BOX, vg::below(1000000)));
+    } else {
+      c.N(pack_raw(BATTERY, vg::below(1000)));
+    }
+  }
+  return c;
+}
+
+// every insertion sequence of k cells of the 3x3 grid x every probed point of the 5x5 grid around it; each case
+// stands for all single mutations (see run_probe_block)
+static void enum_kdq2(Enum& e) {
+  uint64_t idx = 0;
+  unsigned max_k = e.thorough() ? 4 : 3;
+  for (unsigned k = 1; k <= max_k; k++) {
+    uint64_t total = 1;
+    for (unsigned i = 0; i < k; i++) total *= 9;
+    for (uint64_t code = 0; code < total && !e.stop; code++)
+      for (uint64_t pc = 0; pc < 25 && !e.stop; pc++, idx++) {
+        if (!e.mine(idx)) continue;
+        Case blk("kdq2" C13_SUFFIX);
+        blk.N(3).N(k).N(pc);
+        uint64_t t = code;
+        for (unsigned i = 0; i < k; i++) {
+          blk.N(t % 9);
+          t /= 9;
+        }
+        e.exec(blk);
+      }
+  }
+  e.complete(cat("every insertion sequence of 1..", max_k, " cells of the 3x3 grid (repeats allowed) x every point of the 5x5 grid around it looked up, then one mutation ",
+      "(erase_advance of every non-empty subset of the entries while iterating / erase of each entry / insert at each cell), then the same lookup first and the lookups of all cells"));
+}
+
 template <size_t D>
 static Case gen_history() {
   Case c(D == 2 ? "kd2" C13_SUFFIX : "kd3" C13_SUFFIX);
@@ -146,6 +361,8 @@ int main(int argc, char** argv) {
 #else
   checks.push_back({"kd2" C13_SUFFIX, run_kd2, gen_history<2>, kGated ? 6000 : 15000, kGated ? 60000 : 300000, 100, kGated ? std::function<void(Enum&)>() : enum_kd2});
   checks.push_back({"kd3" C13_SUFFIX, run_kd3, gen_history<3>, kGated ? 4000 : 8000, kGated ? 40000 : 150000, 100, nullptr});
+  checks.push_back({"kdq2" C13_SUFFIX, run_kdq2, gen_query_history<2>, kGated ? 2000 : 8000, kGated ? 20000 : 160000, 100, kGated ? std::function<void(Enum&)>() : enum_kdq2});
+  checks.push_back({"kdq3" C13_SUFFIX, run_kdq3, gen_query_history<3>, kGated ? 1000 : 4000, kGated ? 10000 : 80000, 100, nullptr});
 #endif
   return main_(argc, argv, checks);
 }
